@@ -254,7 +254,7 @@ func buildReturnDirectly(graph *compose.Graph[[]*schema.Message, *schema.Message
 	directReturn := func(ctx context.Context, msgs *schema.StreamReader[[]*schema.Message]) (*schema.StreamReader[*schema.Message], error) {
 		return schema.StreamReaderWithConvert(msgs, func(msgs []*schema.Message) (*schema.Message, error) {
 			var msg *schema.Message
-			err = compose.ProcessState[*state](ctx, func(_ context.Context, state *state) error {
+			err := compose.ProcessState[*state](ctx, func(_ context.Context, state *state) error {
 				for i := range msgs {
 					if msgs[i] != nil && msgs[i].ToolCallID == state.ReturnDirectlyToolCallID {
 						msg = msgs[i]
